@@ -3,7 +3,7 @@
 use crate::lua::*;
 use crate::reference::*;
 use crate::source::Source;
-use crate::{claim, note, witness};
+use crate::{claim, note, observe};
 use darklua_core::nodes::*;
 use darklua_core::process::{Evaluator, LuaValue};
 use darklua_core::verif as hooks;
@@ -242,7 +242,7 @@ fn scenario<S: Source>(
     };
     note!(s, "compute_expression on {:?} -> {:?} ({:?})", node, replacement, what);
 
-    witness!(what == Replacement::None || what != Replacement::None, "replace_with returned");
+    observe!(what == Replacement::None || what != Replacement::None, "replace_with returned");
 
     claim!(s, what != Replacement::Other, "the replacement is a literal or one of the two operands");
     match what {
